@@ -122,12 +122,14 @@ func init() {
 		Assumptions: []string{
 			"operators are called directly through the verif hook (same function values the parser installs) and, in batch eval, through Compile/Eval with optimizations disabled",
 			"error values are compared by class and reported operator name, not by message text"},
-		Gen: genC18,
+		Behav: []int{5, 15, 2}, Fidelity: []int{1, 3, 4, 8, 9, 10}, Ignore: []int{6, 7, 14, 16, 17, 50}, CodeText: evalCodeText,
+		Gen:   genC18,
 	})
 	register(&PropDef{
 		ID:   "C17",
 		Rule: "in/overlap on list pairs with total length on both sides of the 100-element switch (0,1,49+50,50+50,99+1,1+99,300+5,...), duplicates, shared/disjoint elements, both element types, empty literals in either position, pre-built sets, type mismatches; non-trivial = both operands are collections/probe of matching kind; distinct = distinct terms",
 		Assumptions: []string{"lists are passed as []int64/[]string values directly to the operator and, in batch eval, as literals through Compile/Eval"},
+		Behav:       []int{5, 15, 2}, Fidelity: []int{1, 3, 4, 8, 9, 10}, Ignore: []int{6, 7, 14, 16, 17, 50}, CodeText: evalCodeText,
 		Gen:         genC17,
 	})
 	register(&PropDef{
